@@ -202,6 +202,12 @@ func faults(base *dt.File) []fault {
 			clearIDs(c)
 			rr.Kids = append(rr.Kids, mark(c))
 			add("second-Body-child", t, "the directive has already been defined")
+		} else if r.Body == dt.SchemaBody && len(r.Params) == 0 {
+			// the Request carries its body itself; a child Body is a second one
+			t := base.Clone()
+			rr := nodeAt(t, p)
+			rr.Kids = append(rr.Kids, mark(dt.N("Body", "any")))
+			add("second-Body-inline-plus-child", t, "the directive has already been defined")
 		}
 	}
 	// undefined type / tag / macro
